@@ -129,8 +129,8 @@ func c13extra(p *Program, r *Report, scope []*ssa.Function, inScope map[*ssa.Fun
 					src := ef.Src(x.Map)
 					fresh := len(src) > 0
 					for root := range src {
-						if root.Kind != rkFresh {
-							fresh = false
+						if root.Kind != rkFresh || ef.Pooled[root.Site] {
+							fresh = false // recycled memory comes with its old contents
 						}
 					}
 					r.Add("C13.fresh", FnName(fn), "the index a query fills is allocated by that call", x.Pos(), fresh, "origin of the map: "+src.String())
